@@ -9,6 +9,7 @@ import Proofs.FunctionsJson
 import Proofs.JsonValue
 import Proofs.Utf8Order
 import Proofs.StrOrder
+import Proofs.FunctionsMore
 namespace Jmes.Props
 open Jmes Jmes.Fn
 
@@ -581,5 +582,142 @@ example : handle (N := N) .max false [.val (.arr [.str [0x62], .str [0xC3, 0xA9]
 example : List.mergeSort ([[0x4E16], [0xE9]].map Utf8.encodeRunes) leStr = [[0xE9], [0x4E16]].map Utf8.encodeRunes := by
   rw [C09_sort_strings_by_code_point _ (by simp [Utf8Order.Scalar])]
   simp [List.mergeSort, Utf8Order.lexLt]
+
+/-! ### the remaining laws: min / min_by on numbers, empty max_by / min_by, length, merge, not_null, map -/
+
+open Jmes.FnMore
+
+/-- `min` on numbers returns an element of the array that exceeds no element;
+    and the handler on a non-empty array of numbers returns that number. -/
+theorem C09_min_numbers [NumLaws N] (x : N) (xs : List N) :
+    minNum x xs ∈ x :: xs ∧ (∀ y ∈ x :: xs, NumOps.lt y (minNum x xs) = false) ∧
+    handle .min false [.val (.arr ((x :: xs).map .num))] = .ok (.num (minNum x xs)) := by
+  refine ⟨minNum_mem x xs, ?_, ?_⟩
+  · intro y hy
+    rcases List.mem_cons.mp hy with rfl | hy'
+    · exact (minNum_le y xs).1
+    · exact (minNum_le x xs).2 y hy'
+  · simp [handle, toArrayNum, allNums, allNums_map_num]
+
+/-- The `max` / `min` handlers on a non-empty array of numbers are `maxNum` / `minNum`
+    (with `C09_max_numbers`, `C09_min_numbers`: the greatest / least element). -/
+theorem C09_max_min_handler_numbers (vs : List (Val N)) (n : N) (ns : List N) (h : allNums vs = some (n :: ns)) :
+    handle .max false [.val (.arr vs)] = .ok (.num (maxNum n ns)) ∧
+    handle .min false [.val (.arr vs)] = .ok (.num (minNum n ns)) := by
+  simp [handle, toArrayNum, h]
+
+/-- `min_by` with number keys: the result is an element with minimal key, and
+    it is the FIRST such element: every earlier element has a strictly greater key. -/
+theorem C09_min_by_first_minimal [NumLaws N] (f : Val N → Res (Val N)) (key : Val N → N) (x : Val N) (xs : List (Val N)) (r : Val N)
+    (hf : ∀ y ∈ x :: xs, f y = .ok (.num (key y))) (h : extremeBy f false (x :: xs) = .ok r) :
+    ∃ pre post, x :: xs = pre ++ r :: post ∧ (∀ y ∈ pre, NumOps.lt (key r) (key y) = true) ∧
+      ∀ y ∈ post, NumOps.lt (key y) (key r) = false := by
+  simp only [extremeBy, hf x (by simp), Bool.false_eq_true, if_false] at h
+  exact byLoopNum_first_split numGt_ord f key x xs r hf h
+
+/-- … at the handler: `min_by(array, &expr)` is that element. -/
+theorem C09_min_by_handler [NumLaws N] (f : Val N → Res (Val N)) (key : Val N → N) (x : Val N) (xs : List (Val N)) (r : Val N)
+    (hf : ∀ y ∈ x :: xs, f y = .ok (.num (key y))) (h : handle .minBy true [.val (.arr (x :: xs)), .ref f] = .ok r) :
+    ∃ pre post, x :: xs = pre ++ r :: post ∧ (∀ y ∈ pre, NumOps.lt (key r) (key y) = true) ∧
+      ∀ y ∈ post, NumOps.lt (key y) (key r) = false :=
+  C09_min_by_first_minimal f key x xs r hf (by simpa [handle] using h)
+
+/-- `max_by` / `min_by` of the empty array are null, whatever the expression. -/
+theorem C09_max_by_min_by_empty (f : Val N → Res (Val N)) :
+    handle .maxBy true [.val (.arr []), .ref f] = .ok .null ∧
+    handle .minBy true [.val (.arr []), .ref f] = .ok .null := by
+  simp [handle, extremeBy]
+
+/-- `length` of an array is its number of elements. -/
+theorem C09_length_array (xs : List (Val N)) :
+    handle .length false [.val (.arr xs)] = .ok (.num (NumOps.ofNat xs.length)) := by
+  simp [handle]
+
+/-- `length` of an object is its number of members. -/
+theorem C09_length_object (kvs : List (Bytes × Val N)) :
+    handle .length false [.val (.obj kvs)] = .ok (.num (NumOps.ofNat kvs.length)) := by
+  simp [handle]
+
+/-- `merge(a)`: an object in which every key looks up to the value it has in `a`
+    (its last one, should `a` repeat a key; objects have unique keys — second part). -/
+theorem C09_merge_single (a : List (Bytes × Val N)) (r : Val N)
+    (h : handle (N := N) .merge false [.val (.obj a)] = .ok r) :
+    ∃ kvs, r = .obj kvs ∧ (∀ j, Val.lookup j kvs = Val.lookup j a.reverse) ∧
+      (a.Pairwise (fun p q => p.1 ≠ q.1) → ∀ j, Val.lookup j kvs = Val.lookup j a) := by
+  simp only [handle, Bool.false_eq_true, if_false, mergeLoop] at h
+  cases h
+  have h1 : ∀ j, Val.lookup j (a.foldl (fun m kv => Val.insert kv.1 kv.2 m) []) = Val.lookup j a.reverse := by
+    intro j
+    rw [lookup_foldl_insert j a]
+    cases Val.lookup j a.reverse <;> simp [Val.lookup]
+  refine ⟨_, rfl, h1, ?_⟩
+  intro hd j
+  rw [h1 j, lookup_reverse_of_distinct j a hd]
+
+/-- `merge` invents no keys: a key that is in none of the arguments is not in the result. -/
+theorem C09_merge_keys_subset (objs : List (List (Bytes × Val N))) (j : Bytes) (r : Val N)
+    (hj : ∀ o ∈ objs, Val.lookup j o = none)
+    (h : handle (N := N) .merge false (objs.map (fun o => .val (.obj o))) = .ok r) :
+    ∃ kvs, r = .obj kvs ∧ Val.lookup j kvs = none := by
+  simp only [handle, Bool.false_eq_true, if_false] at h
+  exact mergeLoop_absent j objs [] r rfl hj h
+
+/-- `not_null` of arguments that are all null is null. -/
+theorem C09_not_null_all_null (vs : List (Val N)) (h : ∀ v ∈ vs, v = .null) :
+    handle .notNull false (vs.map .val) = .ok .null := by
+  rw [C09_not_null]
+  congr 1
+  induction vs with
+  | nil => rfl
+  | cons v rest ih =>
+    rw [h v (by simp)]
+    simp only [firstNonNull]
+    exact ih (fun w hw => h w (by simp [hw]))
+
+/-- `map` keeps nulls: the result has exactly as many elements as the input, and
+    where the expression yields null the result holds null (nothing is dropped). -/
+theorem C09_map_keeps_nulls (f : Val N → Res (Val N)) (xs : List (Val N)) (r : Val N)
+    (h : handle .map true [.ref f, .val (.arr xs)] = .ok r) :
+    ∃ ys, r = .arr ys ∧ ys.length = xs.length ∧
+      ∀ i (hi : i < xs.length) (hj : i < ys.length), f xs[i] = .ok .null → ys[i] = .null := by
+  simp only [handle, Bool.not_true, Bool.false_eq_true, if_false] at h
+  cases hm : mapLoop f xs with
+  | ok ys =>
+    rw [hm] at h
+    cases h
+    obtain ⟨hl, hi⟩ := C09_map f xs ys hm
+    refine ⟨ys, rfl, hl, ?_⟩
+    intro i h1 h2 hn
+    have := hi i h1 h2
+    rw [hn] at this
+    injection this with e
+    exact e.symm
+  | err e => rw [hm] at h; cases h
+  | panic p => rw [hm] at h; cases h
+
+/-! non-vacuity on the integer instance: `min([3,1,2])`, `min_by` / `max_by` with ties
+    (keys 2,1,1,2: the FIRST minimal / maximal element), `length`, `merge`, `not_null`, `map` -/
+example : handle (N := Int) .min false [.val (.arr [.num 3, .num 1, .num 2])] = .ok (.num 1) :=
+  (C09_min_numbers (N := Int) 3 [1, 2]).2.2
+example : handle (N := Int) .max false [.val (.arr [.num 3, .num 1, .num 2])] = .ok (.num 3) ∧
+    handle (N := Int) .min false [.val (.arr [.num 3, .num 1, .num 2])] = .ok (.num 1) :=
+  C09_max_min_handler_numbers (N := Int) _ 3 [1, 2] rfl
+/-- elements are pairs [key, tag]; the expression is "the first component" -/
+def exKey : Val Int → Res (Val Int)
+  | .arr (k :: _) => .ok k
+  | _ => .ok .null
+example : handle (N := Int) .minBy true [.val (.arr [.arr [.num 2, .num 0], .arr [.num 1, .num 1], .arr [.num 1, .num 2], .arr [.num 2, .num 3]]), .ref exKey] =
+    .ok (.arr [.num 1, .num 1]) ∧
+  handle (N := Int) .maxBy true [.val (.arr [.arr [.num 1, .num 0], .arr [.num 2, .num 1], .arr [.num 2, .num 2], .arr [.num 1, .num 3]]), .ref exKey] =
+    .ok (.arr [.num 2, .num 1]) := ⟨rfl, rfl⟩
+example : handle (N := Int) .maxBy true [.val (.arr []), .ref exKey] = .ok .null := (C09_max_by_min_by_empty exKey).1
+example : handle (N := Int) .length false [.val (.arr [.null, .null, .num 7])] = .ok (.num 3) ∧
+    handle (N := Int) .length false [.val (.obj [([0x61], .null), ([0x62], .num 1)])] = .ok (.num 2) :=
+  ⟨C09_length_array _, C09_length_object _⟩
+example : handle (N := Int) .merge false [.val (.obj [([0x61], .num 1), ([0x62], .num 2)])] =
+    .ok (.obj [([0x61], .num 1), ([0x62], .num 2)]) := rfl
+example : handle (N := Int) .notNull false [.val .null, .val .null] = .ok .null :=
+  C09_not_null_all_null [.null, .null] (by simp)
+example : handle (N := Int) .map true [.ref exKey, .val (.arr [.arr [.num 5], .arr [], .num 1])] = .ok (.arr [.num 5, .null, .null]) := rfl
 
 end Jmes.Props
